@@ -27,6 +27,66 @@ from .c10 import get_round_engine
 LIBMPF = 'mpmath/libmp/libmpf.py'
 
 
+DIVS = {'mpf_div': 1, 'mpc_div': 1, 'mpf_rdiv_int': 1, 'mpc_reciprocal': 0}
+
+
+def _same_mode_divisors(fn_node, modes):
+    """(division call, inner call) pairs in which the divisor is computed by a call that is handed the
+    caller's rounding mode unchanged while the division itself is rounded with that mode too"""
+    out, ok = [], []
+    for c in ast.walk(fn_node):
+        if not (isinstance(c, ast.Call) and norm(c.func) in DIVS):
+            continue
+        pos = DIVS[norm(c.func)]
+        if len(c.args) <= pos:
+            continue
+        outer = [norm(a) for a in c.args[pos + 1:]] + [norm(k.value) for k in c.keywords]
+        if not set(outer) & modes:
+            continue
+        for inner in ast.walk(c.args[pos]):
+            if not isinstance(inner, ast.Call):
+                continue
+            given = [a for a in list(inner.args) + [k.value for k in inner.keywords]]
+            if any(isinstance(a, ast.Name) and a.id in modes for a in given):
+                out.append((c, inner))
+            elif any(isinstance(a, ast.Subscript) and norm(a.value) == 'reciprocal_rnd' and norm(a.slice) in modes
+                     for a in given):
+                ok.append((c, inner))
+    return out, ok
+
+
+def check_reciprocal_divisors(run, ix):
+    """B-R13 (seed C03-9).  x**(-n) = 1 / x**n: when the quotient is rounded in the caller's directed mode,
+    the divisor has to err to the *other* side, i.e. it is computed with reciprocal_rnd[rnd].  A divisor
+    that is itself produced by a call receiving the caller's mode unchanged puts the inexact power on the
+    wrong side, and the quotient then crosses the exact value.  Checked in every function of the power
+    kernels (libmpf.py, libelefun.py, libmpc.py) that has a rounding-mode parameter; mpf_pow_int's own
+    `inverse = mpf_pow_int(..., reciprocal_rnd[rnd])` (a named temporary) is B-R5's."""
+    probe = ast.parse('def f(s, n, prec, rnd):\n    return mpf_div(fone, mpf_pow_int(s, n, prec+10, rnd), prec, rnd)')
+    bad, _ = _same_mode_divisors(probe.body[0], {'rnd'})
+    if len(bad) != 1:
+        raise AnalysisError('B-R13: the built-in positive example is not matched')
+    run.ok('B-R13', 'built-in positive example matched')
+    n = 0
+    for rel in ('mpmath/libmp/libmpf.py', 'mpmath/libmp/libelefun.py', 'mpmath/libmp/libmpc.py'):
+        for f in ix.module(rel).funcs.values():
+            modes = set(p for p in f.all_params() if p in ('rnd', 'rounding'))
+            if not modes:
+                continue
+            bad, ok = _same_mode_divisors(f.node, modes)
+            for c, inner in ok:
+                n += 1
+                run.ok('B-R13', '%s: `%s` is computed with the reciprocal mode' % (f.qualname, norm(inner, 70)))
+            for c, inner in bad:
+                n += 1
+                run.fail(Finding('B-R13', rel, f.qualname, norm(c), 'the divisor `%s` is computed with the caller\'s '
+                                 'mode unchanged and the quotient is rounded with it again: under a directed mode the '
+                                 'result lies on the wrong side of the exact value (use reciprocal_rnd[rnd] for the '
+                                 'divisor)' % norm(inner, 70), line=c.lineno))
+    if n < 1:
+        raise AnalysisError('B-R13: no division by a directed inner result found (mpf_pow sqrt branch vanished?)')
+
+
 def run(run, ix, tier):
     run.explanation = (
         'Structural/data-flow rules on mpf_pow_int: caller\'s mode at every final '
@@ -51,6 +111,8 @@ def run(run, ix, tier):
     from .special_rules import check_pow_int_specials
     run.rule('S-R3', floor=20, desc='mpf_pow_int on special bases')
     check_pow_int_specials(run, ix, 'S-R3')
+    run.rule('B-R13', floor=2, desc='a directed divisor is computed with the reciprocal mode')
+    check_reciprocal_divisors(run, ix)
     pw = [g for g in ix.generated if g.qualname == '_mpf.__pow__']
     if not pw:
         raise AnalysisError('generated _mpf.__pow__ not found')
